@@ -67,11 +67,12 @@ KindsOf(us) == [i \in 1..Len(us) |-> us[i][1]]
 IsWordStart(c) == (c >= 65 /\ c <= 90) \/ (c >= 97 /\ c <= 122) \/ c = 95
 IsWordChar(c) == IsWordStart(c) \/ (c >= 48 /\ c <= 57) \/ c = 36
 
+HasNonDigit(w) == \E j \in 1..Len(w) : ~(w[j] >= 48 /\ w[j] <= 57)
 RECURSIVE Path(_, _, _, _, _)
 \* mode: "start" of a part | "word" | "bq" inside back-quotes | "after" a closing back-quote
 Path(text, i, mode, cur, parts) ==
   IF i > Len(text)
-  THEN (IF mode \in {"word", "after"} THEN [ok |-> TRUE, parts |-> Append(parts, cur)]
+  THEN (IF mode = "after" \/ (mode = "word" /\ HasNonDigit(cur)) THEN [ok |-> TRUE, parts |-> Append(parts, cur)]
         ELSE [ok |-> FALSE, parts |-> parts])
   ELSE LET c == text[i] IN
     CASE mode = "start" ->
@@ -79,7 +80,8 @@ Path(text, i, mode, cur, parts) ==
             ELSE IF IsWordChar(c) THEN Path(text, i + 1, "word", <<c>>, parts)
             ELSE [ok |-> FALSE, parts |-> parts])
       [] mode = "word" ->
-           (IF c = DOT THEN Path(text, i + 1, "start", <<>>, Append(parts, cur))
+           (IF c = DOT THEN (IF HasNonDigit(cur) THEN Path(text, i + 1, "start", <<>>, Append(parts, cur))
+                             ELSE [ok |-> FALSE, parts |-> parts])       \* a bare part of digits only is a number, not a name
             ELSE IF IsWordChar(c) THEN Path(text, i + 1, "word", Append(cur, c), parts)
             ELSE [ok |-> FALSE, parts |-> parts])
       [] mode = "bq" ->
@@ -97,7 +99,8 @@ PartClasses ==
   {<<"word", <<97, 98>>, TRUE>>, <<"mixedcase", <<65, 98, 67>>, TRUE>>, <<"underscore", <<95, 97>>, TRUE>>,
    <<"digits-first", <<49, 97>>, TRUE>>, <<"dollar", <<97, 36, 98>>, TRUE>>,
    <<"space", <<97, 32, 98>>, FALSE>>, <<"dot", <<97, 46, 98>>, FALSE>>, <<"nonascii", <<233, 97>>, FALSE>>,
-   <<"quote", <<97, 39, 98>>, FALSE>>, <<"dash", <<97, 45, 98>>, FALSE>>}
+   <<"quote", <<97, 39, 98>>, FALSE>>, <<"dash", <<97, 45, 98>>, FALSE>>,
+   <<"digits-only", <<48, 48, 55>>, FALSE>>, <<"one-digit", <<53>>, FALSE>>}
 
 \* written form of a part: bare or back-quoted
 Written(p, quoted) == IF quoted THEN <<BQ>> \o p[2] \o <<BQ>> ELSE p[2]
